@@ -236,3 +236,42 @@ package eval
 //@   requires isSet(list) && assign != nil
 //@   modifies mapof(assign)
 //@   loop 0 invariant [result-own] isSet(setResult) && own(setResult) && own(setResult.Value) && own(setOf(setResult)) && fresh(setOf(setResult).Value)
+
+// Set union builds its result from scratch (de-duplicated through a Go map and re-listed): the value returned is a new
+// one, never one of the operands.
+//@ func setUnion
+//@   maypanic
+//@   ensures [result-is-a-new-value] fresh(result)
+//@ func intSetToValueSet
+//@   pure
+//@   fresh
+//@   loop 0 invariant [own] fresh(keys) && m != nil && fresh(m) && m.GetSet() != nil && fresh(m.GetSet())
+//@   loop 1 invariant [own] m != nil && fresh(m) && m.GetSet() != nil && fresh(m.GetSet()) && (base(m.GetSet().Value) == 0 || fresh(m.GetSet().Value))
+//@ func stringSetToValueSet
+//@   pure
+//@   fresh
+//@   loop 0 invariant [own] fresh(keys) && m != nil && fresh(m) && m.GetSet() != nil && fresh(m.GetSet())
+//@   loop 1 invariant [own] m != nil && fresh(m) && m.GetSet() != nil && fresh(m.GetSet()) && (base(m.GetSet().Value) == 0 || fresh(m.GetSet().Value))
+//@ func mapSetToValueSet
+//@   pure
+//@   fresh
+//@   loop 0 invariant [own] fresh(keys) && m != nil && fresh(m) && m.GetSet() != nil && fresh(m.GetSet())
+//@   loop 1 invariant [own] m != nil && fresh(m) && m.GetSet() != nil && fresh(m.GetSet()) && (base(m.GetSet().Value) == 0 || fresh(m.GetSet().Value))
+// The unions fold the right-hand key set into the left-hand one (a set built by intSet / stringSet / mapSet).
+//@ func unionIntSets
+//@   requires lhs != nil
+//@   modifies mapof(lhs)
+//@   perwrite
+//@ func unionStringSets
+//@   requires lhs != nil
+//@   modifies mapof(lhs)
+//@   perwrite
+//@ func unionMapSets
+//@   requires lhs != nil
+//@   modifies mapof(lhs)
+//@   perwrite
+//@ func mapSet
+//@   pure
+//@   ensures [new-set] result != nil && fresh(result)
+//@ func getContainedType
+//@   pure
